@@ -626,7 +626,7 @@ impl Header {«
                         ));
                     }«
                     let ghost sa = sig_or_sigs@;
-                    proof { assert(hp.counter_signatures@.len() == 0) by { lemma_absent_fields(hp, val0, n, d, label); } }»
+                    proof { assert(hp.counter_signatures@.len() == 0) by { lemma_absent_fields(hp, val0, n, d, label); } }»«proof { lemma_map_elem_decreases(val0, n); assert(v0 == Value::Array(sig_or_sigs)); }»
                     // The encoding of counter signature[s] is pesky:
                     // - a single counter signature is encoded as `COSE_Signature` (a 3-tuple)
                     // - multiple counter signatures are encoded as `[+ COSE_Signature]`
@@ -634,7 +634,6 @@ impl Header {«
                     // Determine which is which by looking at the first entry of the array:
                     // - If it's a bstr, sig_or_sigs is a single signature.
                     // - If it's an array, sig_or_sigs is an array of signatures
-                    «proof { lemma_map_elem_decreases(val0, n); assert(v0 == Value::Array(sig_or_sigs)); }»
                     match &sig_or_sigs[0] {
                         Value::Bytes(_) => headers
                             .counter_signatures
